@@ -66,41 +66,48 @@ def sweeps(prop, quick):
     """(name, cfg dict, export?) -- bounded spaces fitted to measured TLC speed (about 3 ms CPU per call)"""
     if prop == "C12":
         inv = "INVARIANTS " + C12_INV + " " + SANITY
+        ex = "\nACTION_CONSTRAINT EmitEdge"
         if quick:
-            return [("leaving", dict(BASE, mins="two", rest=inv + "\nACTION_CONSTRAINT EmitEdge", exportmod=31), True)]
+            return [("leaving", dict(BASE, mins="diag", rest=inv + ex, exportmod=41), True)]
         return [
-            ("leaving-1shard", dict(BASE, nb="0, 1", mins="all", fix="0, 5, 6", swap='"default", "cap1", "cap0", "multi"',
-                                    drop="FALSE, TRUE", maxtotal=5, maxleave=3, maxaddl=2, ranks='"id", "mix"',
-                                    rest=inv + "\nACTION_CONSTRAINT EmitEdge", exportmod=997), True),
-            ("leaving-2shards", dict(BASE, nb="2", mins="diag", maxlist=2, maxtotal=7, maxnew=1, maxleave=2,
-                                     swap='"default", "cap1"', rest=inv + "\nACTION_CONSTRAINT EmitEdge", exportmod=499), True),
+            # 1 shard + meta (and meta only), every minimum pair, three swap configurations, leaving lists up to 2+1
+            ("leaving-1shard", dict(BASE, nb="0, 1", mins="all", swap='"default", "cap1", "multi"', maxtotal=5, maxleave=3,
+                                    ranks='"mix"', rest=inv + ex, exportmod=1499), True),
+            # 2 shards + meta, up to 6 validators
+            ("leaving-2shards", dict(BASE, nb="2", swap='"default"', maxtotal=6, rest=inv + ex, exportmod=997), True),
+            # both distributors, balancing on/off, up to 2 new nodes, two hash orders
             ("distribution", dict(BASE, nb="1, 2", cross="FALSE, TRUE", bal="5, 9", fix="5", maxtotal=6, maxnew=2,
-                                  maxunstake=1, maxaddl=0, maxleave=1, ranks='"id", "rev", "mix"', swap='"default", "multi"',
-                                  rest=inv + "\nACTION_CONSTRAINT EmitEdge", exportmod=499), True),
-            ("two-epochs", dict(BASE, depth=2, maxtotal=4, maxleave=1, maxunstake=1, maxaddl=1, mins="one", swap='"multi"',
+                                  maxunstake=1, maxaddl=0, maxleave=1, bigleave="FALSE", ranks='"rev", "mix"',
+                                  swap='"default"', rest=inv + ex, exportmod=499), True),
+            # two consecutive epoch changes (the second call starts from the lists the first one produced; the
+            # "multi" swap configuration changes between the two epochs, the fix flag switches on at the second)
+            ("two-epochs", dict(BASE, depth=2, maxtotal=5, maxleave=1, maxunstake=1, maxaddl=1, mins="two", swap='"multi"',
                                 fix="6", rest=inv), False),
         ]
     if prop == "C14":
         inv = "INVARIANTS Inv_C14_MinSizes " + SANITY
+        ex = "\nACTION_CONSTRAINT EmitEdge"
         if quick:
             return [("minsizes", dict(BASE, mins="all", fix="5", swap='"default", "cap1", "cap0"', maxtotal=5, maxnew=0,
-                                      rest=inv + "\nACTION_CONSTRAINT EmitEdge", exportmod=31), True)]
+                                      rest=inv + ex, exportmod=31), True)]
         return [
-            ("minsizes-1shard", dict(BASE, nb="0, 1", mins="all", fix="0, 5, 6", swap='"default", "cap1", "cap0", "multi"',
-                                     drop="FALSE, TRUE", maxlist=3, maxtotal=6, maxnew=1, maxleave=3, maxaddl=2,
-                                     rest=inv + "\nACTION_CONSTRAINT EmitEdge", exportmod=1499), True),
-            ("minsizes-2shards", dict(BASE, nb="2", mins="all", fix="5", maxtotal=7, maxnew=0, maxleave=2,
-                                      cross="FALSE, TRUE", rest=inv + "\nACTION_CONSTRAINT EmitEdge", exportmod=499), True),
+            ("minsizes-1shard", dict(BASE, nb="0, 1", mins="diag", fix="0, 5", swap='"default", "cap1", "cap0"', maxlist=3,
+                                     maxtotal=6, maxnew=0, maxleave=3, rest=inv + ex, exportmod=1999), True),
+            ("minsizes-2shards", dict(BASE, nb="2", mins="all", fix="5", swap='"default"', maxtotal=6, maxnew=0,
+                                      cross="FALSE, TRUE", rest=inv + ex, exportmod=499), True),
+            ("minsizes-new+off", dict(BASE, nb="1", mins="two", fix="5, 6", swap='"default", "multi"', maxtotal=5, maxnew=1,
+                                      drop="FALSE, TRUE", rest=inv + ex, exportmod=499), True),
         ]
     # C13: the result must not depend on the order in which map keys are visited (all permutations of the keys)
     inv = "INVARIANTS Inv_C13_OrderIndependent"
+    ex = "\nACTION_CONSTRAINT EmitEdge"
     if quick:
-        return [("order", dict(BASE, nb="1, 2", mins="one", cross="FALSE, TRUE", bal="5, 9", fix="5", swap='"default"',
+        return [("order", dict(BASE, nb="1, 2", mins="low", cross="FALSE, TRUE", bal="5, 9", fix="5", swap='"default"',
                                maxtotal=4, maxnew=2, maxunstake=1, maxaddl=1, maxleave=1, bigleave="FALSE",
-                               ranks='"mix"', rest=inv + "\nACTION_CONSTRAINT EmitEdge", exportmod=23), True)]
-    return [("order", dict(BASE, nb="1, 2", mins="diag", cross="FALSE, TRUE", bal="5, 9", fix="5, 6", swap='"default", "cap1"',
-                           maxtotal=5, maxnew=2, maxunstake=2, maxaddl=1, maxleave=2, drop="FALSE, TRUE",
-                           ranks='"mix", "rev"', rest=inv + "\nACTION_CONSTRAINT EmitEdge", exportmod=499), True)]
+                               ranks='"mix"', rest=inv + ex, exportmod=23), True)]
+    return [("order", dict(BASE, nb="1, 2", mins="two", cross="FALSE, TRUE", bal="5, 9", fix="5, 6", swap='"default"',
+                           maxtotal=5, maxnew=1, maxunstake=1, maxaddl=1, maxleave=1, ranks='"mix"',
+                           rest=inv + ex, exportmod=199), True)]
 
 
 def run(ctx):
@@ -119,7 +126,15 @@ def run(ctx):
     # ---------------------------------------------------------------- R1 (+ export of enumerated calls)
     calls = ctx.path("calls.ndjson")
     open(calls, "w").close()
-    for name, cfg, export in sweeps(prop, q):
+    # development aid (mutation self-tests): VERIF_DEV_REUSE=<dir> reuses the calls exported by a previous R1 run
+    # instead of repeating R1; never set by the registered commands
+    dev = os.environ.get("VERIF_DEV_REUSE")
+    cached = os.path.join(dev, "calls-%s-%s.ndjson" % (prop, ctx.tier)) if dev else None
+    if cached and os.path.exists(cached):
+        __import__("shutil").copy(cached, calls)
+        ctx.notes.append("DEV: R1 skipped, calls reused from %s" % cached)
+        ctx.cov(states=1, transitions=1)
+    for name, cfg, export in ([] if cached and os.path.exists(cached) else sweeps(prop, q)):
         open(os.path.join(sd, "r1.cfg"), "w").write(MC % cfg)
         out = ctx.path("calls-%s.ndjson" % name)
         r = ctx.tlc(sd, "MC_Shuffler", "r1.cfg", timeout=5400, behaviours_out=out if export else None)
@@ -129,7 +144,9 @@ def run(ctx):
         if export:
             with open(calls, "a") as f:
                 f.write(open(out).read())
-    if prop == "C12":
+    if cached and not os.path.exists(cached):
+        __import__("shutil").copy(calls, cached)
+    if prop == "C12" and not (cached and ctx.notes and ctx.notes[0].startswith("DEV")):
         # the named deviation: with it (the code as it is) TLC must find the counterexample of the full C12 clause,
         # without it (intended design) the clause holds
         small = dict(BASE, maxtotal=3, mins="two", fix="5", swap='"default"', maxleave=2, maxnew=0, bigleave="FALSE")
@@ -146,7 +163,7 @@ def run(ctx):
         guards = {"C12": ["Never_Leaves", "Never_Unhonoured", "Never_ShuffledOut"], "C14": ["Never_FixPreLeaving"],
                   "C13": ["Inv_C13_Unsorted"]}[prop]
         gbase = dict(BASE, maxtotal=5, mins="all", fix="5", swap='"default", "cap1"') if prop != "C13" else \
-            dict(BASE, nb="2", mins="one", fix="5", swap='"default"', maxtotal=4, maxleave=2, bigleave="FALSE")
+            dict(BASE, nb="2", mins="low", fix="5", swap='"default"', maxtotal=4, maxleave=2, bigleave="FALSE")
         for g in guards:
             open(os.path.join(sd, "vac.cfg"), "w").write(MC % dict(gbase, rest="INVARIANTS " + g))
             v = ctx.tlc(sd, "MC_Shuffler", "vac.cfg", timeout=1800, count=False, allow=("invariant",))
